@@ -54,13 +54,13 @@ Definition out_eqb (ordered : bool) (st : store) (o : outcome) : bool :=
 
 (* file-level effects seen in the system-call trace of the real pass *)
 Inductive teff :=
-| TRm (p : path) | TRmEmpty (p : path) | TVtTrunc (org : Z) | TVtSet (org : Z) (l : list N) | TSegTmp | TSegSet (l : list path) | TSegRemove
+| TRm (p : path) | TRmEmpty (p : path) | TVtTrunc (org : Z) | TVtTmp (org : Z) | TVtSet (org : Z) (l : list N) | TSegTmp | TSegSet (l : list path) | TSegRemove
 | TMmTmp | TMmSet (l : list path) | TMmRemove.
 
 Definition teff_eqb (a b : teff) : bool :=
   match a, b with
   | TRm p, TRm q | TRmEmpty p, TRmEmpty q => path_eqb p q
-  | TVtTrunc a, TVtTrunc b => (a =? b)%Z
+  | TVtTrunc a, TVtTrunc b | TVtTmp a, TVtTmp b => (a =? b)%Z
   | TVtSet a l, TVtSet b m => (a =? b)%Z && list_eqb N.eqb l m
   | TSegTmp, TSegTmp | TSegRemove, TSegRemove | TMmTmp, TMmTmp | TMmRemove, TMmRemove => true
   | TSegSet l, TSegSet m | TMmSet l, TMmSet m => list_eqb path_eqb l m
@@ -74,6 +74,7 @@ Definition disk_of (st : store) (e : eff) : list teff :=
   | ERm p => if mem_path p (dirs st) then [TRm p] else []
   | ERmEmpty p => if dir_empty p (dirs st) then [TRmEmpty p] else []
   | EVtTrunc o => [TVtTrunc o]
+  | EVtTmp o => [TVtTmp o]
   | EVtSet o l => [TVtSet o l]
   | EMemDel _ | EMMemDel _ => []
   | ESegTmp => [TSegTmp]
